@@ -6,7 +6,7 @@ from hypothesis import strategies as st
 
 from .. import refmodel as rm
 from .. import rx, simnet
-from ..fakesock import make_ws, split_at
+from ..fakesock import Interrupt, make_ws, split_at
 from ..runner import Obs, exc_bucket, hyp_run
 
 ID = "C03"
@@ -91,7 +91,7 @@ def run_case(case):
             try:
                 ws = websocket.WebSocket(fire_cont_frame=fire, skip_utf8_validation=skip)
                 ws.connect("ws://seg.test/")
-            except Exception as e:
+            except (Exception, Interrupt) as e:
                 obs.fail(exc_bucket("handshake|connect-raised-under-segmentation", e), f"cuts={cuts[:12]}: {type(e).__name__}: {e}")
                 return _cls(obs, case, frames, 0, wire, 0)
         fs = ws.sock
